@@ -68,6 +68,40 @@ def _obs(code, ctx):
     return "E9:" + type(v).__name__
 
 
+def _root():
+    return f"/tmp/c10-{_state['pid']}"
+
+
+def _write_files(prefix, files):
+    """file-backed namespaces: <root>/<munged ns path>.lpy on sys.path"""
+    import importlib
+    import sys
+    root = _root()
+    if root not in sys.path:
+        os.makedirs(root, exist_ok=True)
+        sys.path.insert(0, root)
+        import atexit
+        import shutil
+        atexit.register(shutil.rmtree, root, True)
+    munge = _state["util"].munge
+    for ns, defs in files.items():
+        path = os.path.join(root, *munge(ns).split(".")) + ".lpy"
+        os.makedirs(os.path.dirname(path), exist_ok=True)
+        with open(path, "w") as f:
+            f.write(f"(ns {ns})\n")
+            for n, fl, v in defs:
+                f.write(f"(def {_meta(fl)}{n} {int(v)})\n")
+    importlib.invalidate_caches()
+
+
+def _remove_files(prefix):
+    import shutil
+    import sys
+    shutil.rmtree(os.path.join(_root(), prefix), ignore_errors=True)
+    for k in [k for k in sys.modules if k == prefix or k.startswith(prefix + ".")]:
+        del sys.modules[k]
+
+
 def _meta(fl):
     d, r, p = fl
     items = []
@@ -99,6 +133,9 @@ def run(case):
         return None if s is None else s.replace("@", prefix)
 
     nss = [sub(n) for n in case["nss"]]
+    files = case.get("files") or {}
+    if files:
+        _write_files(prefix, {sub(ns): [(sub(n), fl, v) for n, fl, v in defs] for ns, defs in files.items()})
     modes = case["modes"]
     step_ctx = _ctx(0, 1)
     ctxs = [_ctx(ind, inl) for ind, inl in modes]
@@ -159,6 +196,9 @@ def run(case):
                     reads.append(row)
                 out.append({"ok": ok, "err": err, "reads": reads})
     finally:
+        if files:
+            _remove_files(prefix)
+            created |= {sub(ns) for ns in files}
         for n in created:
             try:
                 rt.Namespace.remove(sym.symbol(n))
